@@ -726,7 +726,13 @@ func (g *graph) read(node ast.Node, by types.Object) {
 		g.read(node.Type, by)
 		// We get the type of the node itself, not of node.Type, to handle nested composite literals of the kind
 		// T{{...}}
-		typ, isStruct := typeutil.CoreType(g.info.TypeOf(node)).(*types.Struct)
+		T := typeutil.CoreType(g.info.TypeOf(node))
+		if ptr, ok := T.(*types.Pointer); ok && node.Type == nil {
+			// An element with elided type in a composite literal whose element type is a pointer: []*T{{...}} stands
+			// for []*T{&T{...}}, and the type recorded for {...} is *T.
+			T = typeutil.CoreType(ptr.Elem())
+		}
+		typ, isStruct := T.(*types.Struct)
 
 		if isStruct {
 			unkeyed := len(node.Elts) != 0 && !isOfType[*ast.KeyValueExpr](node.Elts[0])
